@@ -18,11 +18,14 @@ type methodCache[R CacheableResult] struct {
 	// gen counts invalidations. A result obtained before an invalidation must
 	// not be stored after it: see [methodCache.putIfCurrent].
 	gen uint64
+	// puts counts stored results; it orders entries by arrival.
+	puts uint64
 }
 
 type cacheEntry[R CacheableResult] struct {
 	result     R
 	receivedAt time.Time
+	seq        uint64 // value of methodCache.puts when the entry was stored
 }
 
 func (e *cacheEntry[R]) isValid() bool {
@@ -51,9 +54,11 @@ func (mc *methodCache[R]) put(key string, result R) {
 	if mc.cachedValues == nil {
 		mc.cachedValues = make(map[string]*cacheEntry[R])
 	}
+	mc.puts++
 	mc.cachedValues[key] = &cacheEntry[R]{
 		result:     result,
 		receivedAt: time.Now(),
+		seq:        mc.puts,
 	}
 }
 
